@@ -450,6 +450,11 @@ verus! {
         r is Ok && r->Ok_0.0 is Some ==> r->Ok_0.0->Some_0.is_dummy == self.is_dummy && r->Ok_0.0->Some_0.network == self.network
             && r->Ok_0.0->Some_0.wf(), // @obl C01.remove.wf
         r is Ok && r->Ok_0.0 is Some ==> r->Ok_0.0->Some_0.caches_ok(), // @obl C09.remove.caches
+        // C13: "a vehicle left without activities disappears": no tour is returned exactly when nothing (dummy) resp.
+        // nothing but the two depots (real vehicle) would be left
+        r is Ok ==> (r->Ok_0.0 is None <==> (if self.is_dummy { self.rest(self.index_of(segment.start), self.index_of(segment.end) + 1).len() == 0 }
+            else { self.rest(self.index_of(segment.start), self.index_of(segment.end) + 1).len() <= 2 })), // @obl C13.remove.no_tour_iff_no_activity_left
+        r is Ok ==> r->Ok_0.1.network == self.network,
 //@closure-params 0
     usize
 //@closure 0
